@@ -106,6 +106,10 @@ func guarded(timeout time.Duration, f func()) callResult {
 	if timeout == 0 {
 		return run()
 	}
+	// once a dozen calls have hung the verdict is settled: keep the run short
+	if hangs >= 12 && timeout > 300*time.Millisecond {
+		timeout = 300 * time.Millisecond
+	}
 	ch := make(chan callResult, 1)
 	go func() { ch <- run() }()
 	select {
